@@ -10,7 +10,7 @@ import os, ast, itertools, math
 import numpy as np
 from . import common
 
-THEOREM_FILES = ['NumqiProps/C19.lean']
+THEOREM_FILES = ['NumqiProps/C19.lean', 'NumqiProps/C19ErrorSets.lean']
 THOROUGH_FILE = 'NumqiProps/C19Thorough.lean'
 LEVEL = 'proof'
 RULE = ('one op per shipped code and kind (code words, tableau generators, per-error KL classification, check_stabilizer, '
